@@ -21,10 +21,13 @@ def syslog_line(local_epoch, i):
 
 
 def sequences(tier):
-    """lists of LOCAL wall-clock epochs (strictly increasing) in which every year boundary is a visible wrap
+    """lists of LOCAL wall-clock epochs (non-decreasing) in which every year boundary is a visible wrap
     (the later stamp's month/day/time is earlier in the calendar than the previous one's)."""
     # the last two: one year minus 25.5 h / minus 30 h, i.e. a wrap that looks like stepping back by just over a day
-    gaps = [1, 86400, 26 * 3600, 40 * 86400, 200 * 86400, 365 * 86400 - 25 * 3600 - 1800, 365 * 86400 - 30 * 3600]
+    # 0: two messages with the same stamp
+    gaps = [0, 1, 86400, 26 * 3600, 40 * 86400, 200 * 86400, 365 * 86400 - 25 * 3600 - 1800, 365 * 86400 - 30 * 3600]
+    if tier == "quick":
+        gaps = [0, 1, 26 * 3600, 40 * 86400, 200 * 86400, 365 * 86400 - 25 * 3600 - 1800]
     starts = [epoch(2018, 12, 30, 23, 59, 59), epoch(2018, 11, 15, 12, 0, 0), epoch(2019, 6, 1, 0, 0, 1), epoch(2018, 12, 31, 23, 59, 59)]
     # leap days that are NOT followed by a later year: 29 February as the first message after a wrap, in the middle, at the end
     leap = [[epoch(2019, 12, 31, 23, 59, 59), epoch(2020, 2, 29, 10, 0, 0), epoch(2020, 3, 1, 10, 0, 0)],
